@@ -20,10 +20,14 @@ def oracle(u: Universe, tc: TypeCase, aval: Dict[str, Any], route: str, tally: T
     exp = av.normalize(u.schema, tc.msg, aval)
     cls = getattr(u.bp, tc.msg.name)
     refcls = u.ref.cls(tc.msg.name)
-    if route == "ref->bp":
+    if route.startswith("ref->bp"):
         ref = av.make_ref(u.schema, u.ref, tc.msg, aval)
+        # the reference's printer options: each is JSON text "the reference emits for a message"
+        opts = {"ref->bp": {}, "ref->bp:proto-names": {"preserving_proto_field_name": True},
+                "ref->bp:enum-numbers": {"use_integers_for_enums": True},
+                "ref->bp:with-defaults": {"always_print_fields_with_no_presence": True}}[route]
         try:
-            text = json_format.MessageToJson(ref)
+            text = json_format.MessageToJson(ref, **opts)
         except Exception as e:
             raise HarnessError(f"reference cannot print {tc.msg.name} {aval!r}: {e}")
         tally.inc("edges")
@@ -75,6 +79,8 @@ def oracle(u: Universe, tc: TypeCase, aval: Dict[str, Any], route: str, tally: T
 
 
 def routes_fn(tc, aval):
+    if tc.tag in ("T1", "TN", "KS", "REC"):
+        return ROUTES + ("ref->bp:proto-names", "ref->bp:enum-numbers", "ref->bp:with-defaults")
     return ROUTES
 
 
